@@ -24,6 +24,9 @@ Sections
   stat_scale t / F / t() statistics of models OLS/AR/WLS, fMRI GLM and labs glm contrasts on data scaled by
            2^e (e -50..40) and 10^d (d -15..6): statistics invariant, effect/sd equivariant, t = effect/sd,
            engines agree at every scale
+  labs_contrast  labs glm.contrast on voxel grids (0..3 voxel axes, every fit axis): exact correspondence of the F-contrast
+           covariance broadcast (resize / .T / reshape) with ConModel.z_labs_fcon_variance; on real fits (ols, kalman, ar1)
+           every voxel carries s2[v] * c nvbeta[v] c' and variance / F / t do not depend on grid-vs-flat layout or voxel order
   kalman_c the CURRENT lib/fff/fff_glm_kalman.c driven through ctypes on libcstat.so (KF_new / _reset /
            _iterate row by row, KF_fit, RKF_fit): Gallina recursion (Model.kf_step) vs C, batch
            regularised / OLS solutions, ssd/t and dof conventions, RKF against the installed wrapper
@@ -36,7 +39,7 @@ from ..kit import cz, czl, cnat, cq, clist
 
 HDR = ("From Coq Require Import List ZArith QArith Qcanon.\n"
        "From NV.Lib Require Import RingMat C05Lin Harness.\n"
-       "From NV.C05 Require Import Model.\n")
+       "From NV.C05 Require Import Model ConModel.\n")
 TOL = "(Qmake 1 100000000)"          # 1e-8
 TOLA = "(Qmake 1 1000000000)"        # 1e-9 (fit algebra with pinv threaded in)
 RT = 1e-8
@@ -517,6 +520,161 @@ def labs_axis_section(ck):
         if not close(np.asarray(con.effect).reshape(-1), eff.reshape(-1), 1e-10):
             ck.fail("labs.glm/contrast-effect-axis/nd%d-axis%d" % (nd, axis), "contrast effect is not c'beta along the fit axis", rep)
     ck.section("labs_axis", cases=N)
+
+
+def _grid_shape(rng, i):
+    """voxel grid: 0..3 axes, non-square extents, extents of 1 included"""
+    nax = [2, 3, 1, 2, 0, 2, 3, 1][i % 8]
+    sh = [int(rng.integers(1, 5)) for _ in range(nax)]
+    if nax >= 2 and i % 2 == 0:
+        sh[0], sh[1] = 2 + i % 3, 3 + (i // 3) % 2 + (1 if 2 + i % 3 == 3 + (i // 3) % 2 else 0)    # non-square, both > 1
+    return sh
+
+
+def labs_contrast_section(ck, cx):
+    """labs glm.contrast (glm.py 86-136): t and multi-row (F) contrasts on voxel GRIDS.
+    (a) exact correspondence of the voxel-constant-nvbeta covariance broadcast with ConModel.z_labs_fcon_variance on hand-set
+        glm objects (integer nvbeta - also non-symmetric -, integer s2 grids of 0..3 axes, integer contrasts of 2..4 rows);
+    (b) on real fits (spherical ols / kalman, ar1) along every axis: variance[.., v] = s2[v] * c nvbeta[v] c', effect = c beta,
+        and variance / F statistic of the grid = those of the same voxels handed over as a flat list and in permuted order."""
+    from nipy.labs.glm import glm as labs
+    rng = ck.rng("labs-contrast")
+    N = ck.n(60, 400)
+    for i in range(N):
+        p = int(rng.integers(2, 5))
+        q = int(rng.integers(2, min(p, 4) + 1)) if i % 5 else 2
+        sh = _grid_shape(rng, i)
+        C = rng.integers(-3, 4, (q, p)).astype(float)
+        nvb = rng.integers(-4, 5, (p, p)).astype(float)
+        sym = bool(i % 2)
+        if sym:
+            nvb = nvb + nvb.T
+        s2 = rng.integers(1, 30, sh).astype(float) if sh else np.float64(int(rng.integers(1, 30)))
+        s2 = np.asarray(s2)
+        axis = int(rng.integers(0, len(sh) + 1))
+        bshape = list(sh)
+        bshape.insert(axis, p)
+        G = labs.glm()
+        G.beta = rng.integers(-5, 6, bshape).astype(float)
+        G.nvbeta, G.s2, G.dof, G.a = nvb, s2, 7.0, 0
+        G._axis, G._constants, G.model, G.method = axis, ['nvbeta', 'a'], 'spherical', 'ols'
+        sq = [d for d in sh if d != 1]                       # contrast() works on s2.squeeze()
+        nax = len(sq)
+        ck.count(("labs-fcon", q, tuple(sh), axis, C.tobytes(), nvb.tobytes(), s2.tobytes()), nontrivial=nax >= 2,
+                 bucket="labs-fcon:q%d:voxel-axes%d:%s" % (q, nax, "sym" if sym else "nonsym"))
+        rep = {"c": C.tolist(), "nvbeta": nvb.tolist(), "s2": s2.tolist(), "s2_shape": sh, "axis": axis}
+        feat = "voxel-axes%d" % min(nax, 2)
+        try:
+            con = G.contrast(C)
+            var = np.asarray(con.variance)
+        except Exception as e:  # noqa
+            ck.fail("labs.contrast/raises/F/" + feat, "glm.contrast raised %s: %s" % (type(e).__name__, e), rep)
+            continue
+        if list(var.shape) != [q, q] + sq:
+            ck.fail("labs.contrast/variance-shape/F/" + feat, "variance shape %s, expected %s" % (var.shape, [q, q] + sq), rep)
+            continue
+        vc = C @ nvb @ C.T
+        expect = vc.T.reshape([q, q] + [1] * nax) * s2.squeeze()          # the code stores the transposed q x q matrix
+        rep["variance"] = var.tolist()
+        if sym and not np.array_equal(var, vc.reshape([q, q] + [1] * nax) * s2.squeeze()):
+            ck.fail("labs.contrast/F-covariance-not-own-voxel-s2/" + feat,
+                    "variance[:, :, v] != s2[v] * c nvbeta c' for a symmetric voxel-constant nvbeta", rep)
+        elif not np.array_equal(var, expect):
+            ck.fail("labs.contrast/F-covariance-not-own-voxel-s2/" + feat, "variance[b, a, v] != (c nvbeta c')[a, b] * s2[v]", rep)
+        flat = [int(v) for v in var.ravel()]
+        lit = lambda M: clist([czl([int(v) for v in row]) for row in M])
+        args = "%s %s %s %s" % (lit(C), lit(nvb), clist([str(d) for d in sq]), czl([int(v) for v in np.ravel(s2)]))
+        cx.term("zlist_eqb (NV.C05.ConModel.z_labs_fcon_variance %s) %s" % (args, czl(flat)),
+                "model-vs-impl/labs-fcon-variance/" + feat, "ConModel.z_labs_fcon_variance differs from glm.contrast(c).variance",
+                rep, show="NV.C05.ConModel.z_labs_fcon_variance " + args)
+        if i < 2:
+            ck.sample({"section": "labs_contrast", **rep})
+
+    # (b) real fits
+    M = ck.n(40, 250)
+    stale = 0
+    for i in range(M):
+        n = int(rng.integers(6, 13))
+        p = int(rng.integers(2, 5))
+        X = rand_design(rng, n, p).astype(float)
+        sh = _grid_shape(rng, i + 1)
+        axis = int(rng.integers(0, len(sh) + 1))
+        shape = list(sh)
+        shape.insert(axis, n)
+        V = int(np.prod(sh)) if sh else 1
+        # voxel-dependent noise level: s2 differs strongly between voxels
+        Y = rng.integers(-9, 10, shape).astype(float) * np.moveaxis(
+            (1.0 + np.arange(V)).reshape(sh + [1]) if sh else np.ones((1,)), -1, axis)
+        Y = Y + rng.integers(-3, 4, shape)
+        q = int(rng.integers(2, min(p, 3) + 1))
+        C = rng.integers(-2, 3, (q, p)).astype(float)
+        if np.linalg.matrix_rank(C) < q:
+            C = np.eye(p)[:q]
+        nax = len([d for d in sh if d != 1])
+        feat = "voxel-axes%d" % min(nax, 2)
+        perm = rng.permutation(V)
+        for model, method in (("spherical", "ols"), ("spherical", "kalman"), ("ar1", "kalman")):
+            tag = "%s-%s" % (model, method)
+            ck.count(("labs-con", tag, tuple(shape), axis, Y.tobytes(), C.tobytes()), nontrivial=nax >= 2,
+                     bucket="labs-con:%s:voxel-axes%d" % (tag, nax))
+            rep = {"X": X.tolist(), "Y": Y.tolist(), "axis": axis, "c": C.tolist(), "model": model, "method": method}
+            Y2 = np.ascontiguousarray(np.moveaxis(Y, axis, 0).reshape(n, V))
+            try:
+                G = labs.glm(Y, X, axis=axis, model=model, method=method)
+                G2 = labs.glm(Y2, X, axis=0, model=model, method=method)
+                G3 = labs.glm(np.ascontiguousarray(Y2[:, perm]), X, axis=0, model=model, method=method)
+                out = {}
+                for nm, g in (("grid", G), ("flat", G2), ("perm", G3)):
+                    f = g.contrast(C)
+                    t = g.contrast(C[0])
+                    out[nm] = (np.asarray(f.effect), np.asarray(f.variance), np.asarray(f.stat()), np.asarray(t.effect),
+                               np.asarray(t.variance), np.asarray(t.stat()))
+            except ImportError:
+                stale += 1
+                continue
+            except Exception as e:  # noqa
+                ck.fail("labs.contrast/raises/%s/%s" % (tag, feat), "labs glm fit/contrast raised %s: %s" % (type(e).__name__, e), rep)
+                continue
+            fe, fv, fs, te, tv, ts = out["grid"]
+            # own-voxel covariance from the object's own fields (same association as the library)
+            s2g = np.asarray(G.s2).reshape(-1)
+            if model == "spherical":
+                base = np.dot(C, np.inner(G.nvbeta, C))
+                own = base[:, :, None] * s2g[None, None, :]
+                town = float(C[0] @ G.nvbeta @ C[0]) * s2g
+            else:
+                nvf = np.moveaxis(np.moveaxis(np.asarray(G.nvbeta), axis, 0), axis + 1, 1).reshape(p, p, V)
+                own = np.einsum("ik,klv,jl->ijv", C, nvf, C) * s2g[None, None, :]
+                town = np.einsum("k,klv,l->v", C[0], nvf, C[0]) * s2g
+            bfl = np.moveaxis(np.asarray(G.beta), axis, 0).reshape(p, V)
+            sc = 1e-9 * (1 + np.abs(own).max())
+            if fv.size != own.size or tv.size != V or fe.size != q * V:
+                ck.fail("labs.contrast/shape/%s/%s" % (tag, feat), "effect/variance sizes %s/%s" % (fe.shape, fv.shape), rep)
+                continue
+            if np.abs(fv.reshape(q, q, V) - own).max() > sc:
+                ck.fail("labs.contrast/F-covariance-not-own-voxel-s2/%s/%s" % (tag, feat),
+                        "F-contrast variance[:, :, v] != s2[v] * c nvbeta[v] c' (max abs diff %.3g)" % np.abs(fv.reshape(q, q, V) - own).max(), rep)
+            if np.abs(tv.reshape(V) - town).max() > 1e-9 * (1 + np.abs(town).max()):
+                ck.fail("labs.contrast/t-variance-not-own-voxel-s2/%s/%s" % (tag, feat), "t-contrast variance[v] != s2[v] * c nvbeta[v] c'", rep)
+            if not close(fe.reshape(q, V), C @ bfl, 1e-10) or not close(te.reshape(V), C[0] @ bfl, 1e-10):
+                ck.fail("labs.contrast/effect-axis/%s/%s" % (tag, feat), "contrast effect is not c beta along the fit axis", rep)
+            # grouping / order of voxels
+            for nm, idx in (("flat", np.arange(V)), ("perm", perm)):
+                oe, ov, os_, ote, otv, ots = out[nm]
+                inv = np.empty(V, dtype=int)
+                inv[idx] = np.arange(V)
+                rel = 1e-7 if model == "spherical" else 1e-6
+                pairs = (("F-variance", fv.reshape(q * q, V), ov.reshape(q * q, V)[:, inv]),
+                         ("F-stat", fs.reshape(1, V), os_.reshape(1, V)[:, inv]),
+                         ("t-variance", tv.reshape(1, V), otv.reshape(1, V)[:, inv]),
+                         ("t-stat", ts.reshape(1, V), ots.reshape(1, V)[:, inv]))
+                for what, a_, b_ in pairs:
+                    if not np.all(np.isfinite(b_)):
+                        continue
+                    if np.abs(a_ - b_).max() > rel * (1 + np.abs(b_).max()):
+                        ck.fail("voxel-grouping/labs-contrast-%s-differs-%s/%s/%s" % (what, "flat-vs-grid" if nm == "flat" else "permuted", tag, feat),
+                                "%s of a voxel depends on how the voxels are arranged (max abs diff %.3g)" % (what, np.abs(a_ - b_).max()), rep)
+    ck.section("labs_contrast", exact_cases=N, fit_cases=M, engine_unavailable=stale)
 
 
 def glm_ar1_section(ck, cx):
@@ -1407,6 +1565,7 @@ def run(ck):
     fit_section(ck, cx)
     glm_ar1_section(ck, cx)
     labs_axis_section(ck)
+    labs_contrast_section(ck, cx)
     kalman_c_section(ck, cx)
     pos_recipr_section(ck, cx)
     stat_scale_section(ck)
